@@ -143,6 +143,28 @@ impl Line {
         }
         s
     }
+    /// rendering plus the character span (start, end) of every token
+    pub fn render_with_offsets(&self, dec: &str, thou: &str, extra: &[u8]) -> (String, Vec<(usize, usize)>) {
+        let mut s = String::new();
+        let mut pos = 0usize;
+        let mut spans = vec![];
+        for (i, t) in self.toks.iter().enumerate() {
+            let n = t.space as usize + extra.get(i).copied().unwrap_or(0) as usize;
+            for _ in 0..n {
+                s.push(' ');
+            }
+            pos += n;
+            let text = t.text(dec, thou);
+            let len = text.chars().count();
+            spans.push((pos, pos + len));
+            pos += len;
+            s.push_str(&text);
+        }
+        for _ in 0..extra.get(self.toks.len()).copied().unwrap_or(0) {
+            s.push(' ');
+        }
+        (s, spans)
+    }
     pub fn push(&mut self, t: Tok) {
         let first = self.toks.is_empty();
         self.toks.push(t);
